@@ -335,7 +335,7 @@ Qed.
 
 (* ====================================================================================== *)
 (* The loop invariant, generic in the renderer variant and in the relation on states        *)
-(* (teq for the unoptimised renderer, teq_disp for the optimised one)                       *)
+(* (teq gives the exact theorems, teq_disp the weaker display-equivalence forms)           *)
 (* ====================================================================================== *)
 Section Generic.
 Variable R : tstate -> tstate -> Prop.
@@ -1040,10 +1040,10 @@ Proof.
 Qed.
 
 (* ---------- (b): the optimiser's difference ---------- *)
-Definition clr_act (e : effect) : act := match e with FONT_TYPE => ASet FONT_TYPE [10%N] | _ => AClr e end.
+Definition clr_act (e : effect) : act := AClr e.
 
 (* obligation on the GENERATED clear table: every effect has a clear code, and the specification
-   terminal reads it as clearing that effect (for FONT_TYPE: as selecting the primary font) *)
+   terminal reads it as clearing that effect (since F28 also for FONT_TYPE, whose clear code is 10) *)
 Lemma clear_spec e : exists c, clear_code e = Some c /\ txt_act (decN c) (clr_act e).
 Proof.
   destruct e; (eexists; split; [reflexivity|]); eexists; (split; [lazy; reflexivity|]);
@@ -1135,18 +1135,14 @@ Proof.
 Qed.
 
 Lemma lw_clr e x : last_write [clr_act e] x =
-  if effect_beq e x then Some (match x with FONT_TYPE => Some [10%N] | _ => None end) else None.
-Proof.
-  destruct (effect_beq e x) eqn:E.
-  - apply effect_beq_eq in E; subst. destruct x; reflexivity.
-  - destruct e; cbn [clr_act last_write]; rewrite E; reflexivity.
-Qed.
+  if effect_beq e x then Some None else None.
+Proof. unfold clr_act. cbn [last_write]. destruct (effect_beq e x); reflexivity. Qed.
 Lemma lw_set kv x : last_write [set_act kv] x =
   match params_of (snd kv) with Some g => if effect_beq (fst kv) x then Some (Some g) else None | None => None end.
 Proof. unfold set_act. destruct (params_of (snd kv)); reflexivity. Qed.
 
 Theorem diff_sound old new : nodupk new -> entries_ok new ->
-  teq_disp (sgr spec_class (as_t old) (codes_of_texts (diff_codes old new))) (as_t new).
+  teq (sgr spec_class (as_t old) (codes_of_texts (diff_codes old new))) (as_t new).
 Proof.
   intros Hn He x. unfold sgr.
   rewrite (proj1 (acts_of_txt_acts _ _ (diff_txt_acts old new He))).
@@ -1204,15 +1200,14 @@ Proof.
           - apply effect_beq_eq in E. congruence.
           - destruct (params_of v'); reflexivity. }
         destruct (dget old e'); auto. destruct (str_eqb s v'); auto. }
-    set (w := match x with FONT_TYPE => Some [10%N] | _ => @None (list N) end).
+    set (w := @None (list N)).
     assert (Hcases : forall kv', In kv' old -> last_write (fc kv') x = None \/ last_write (fc kv') x = Some w).
     { intros [e' v'] _. unfold fc. cbn [fst]. destruct (dget new e'); [now left|]. rewrite lw_clr.
       destruct (effect_beq e' x); [now right|now left]. }
     destruct (dget old x) as [v0|] eqn:Do.
     + pose proof (dget_in _ _ _ Do) as Hin0.
-      rewrite (lw_flat_some fc x w old (x, v0) Hin0); auto.
-      * unfold w. destruct x; reflexivity.
-      * unfold fc. cbn [fst]. rewrite Dn, lw_clr, effect_beq_refl. reflexivity.
+      rewrite (lw_flat_some fc x w old (x, v0) Hin0); [reflexivity| |exact Hcases].
+      unfold fc. cbn [fst]. rewrite Dn, lw_clr, effect_beq_refl. reflexivity.
     + rewrite lw_flat_none. { unfold as_t. now rewrite Do. }
       intros [e' v'] Hin'. pose proof (dget_none_key old x e' v' Do Hin') as Hne. unfold fc. cbn [fst].
       destruct (dget new e'); [reflexivity|]. rewrite lw_clr.
@@ -1246,10 +1241,10 @@ Lemma s2d_of_set l : set_parsable l ->
 Proof. intros H. apply s2d_style. now apply set_parsable_texts. Qed.
 
 (* what the optimiser emits (or omits) moves the terminal to the style of the new active list *)
-Lemma opt_pick_sound t1 act p : set_parsable act -> set_parsable (padd p) -> teq_disp t1 (sty act) ->
+Lemma opt_pick_sound R (HR : rel_ok R) t1 act p : set_parsable act -> set_parsable (padd p) -> R t1 (sty act) ->
   let cur := step act p in
   let ac := opt_pick (s2d (fun x => x) (map stxt act) []) (s2d (fun x => x) (map stxt cur) []) (pt_codes p cur) in
-  teq_disp (if fst ac then sgr_move t1 (snd ac) else t1) (sty cur) /\ exists P, params_of (snd ac) = Some P.
+  R (if fst ac then sgr_move t1 (snd ac) else t1) (sty cur) /\ exists P, params_of (snd ac) = Some P.
 Proof.
   intros Ha Hp Ht cur.
   assert (Hc : set_parsable cur). { intros x Hx. apply in_step in Hx as [Hx|Hx]; auto. }
@@ -1260,22 +1255,22 @@ Proof.
   pose proof (diff_sound old new Hnd Hne) as Hdiff.
   destruct (acts_of_txt_acts _ _ (diff_txt_acts old new Hne)) as (_ & Hpar & Hnn).
   pose proof (pt_codes_params p cur (set_parsable_wf _ Hc)) as Hcodes.
-  assert (Hfull : teq_disp (sgr_move t1 (pt_codes p cur)) (sty cur)).
-  { apply (pt_codes_style_R teq_disp teq_disp_rel_ok); auto using set_parsable_wf. }
-  assert (Ht_old : teq_disp t1 (as_t old)).
-  { eapply teq_disp_trans; [exact Ht|]. apply teq_teq_disp, teq_sym, Hold. }
+  assert (Hfull : R (sgr_move t1 (pt_codes p cur)) (sty cur)).
+  { apply (pt_codes_style_R R HR); auto using set_parsable_wf. }
+  assert (Ht_old : R t1 (as_t old)).
+  { eapply (R_trans R HR); [exact Ht|]. apply (R_teq R HR), teq_sym, Hold. }
   unfold opt_pick. cbv zeta. set (o := join [SEMI] (diff_codes old new)).
   destruct (is_nil o) eqn:En.
   - cbn [fst snd]. split; [|eauto].
     assert (Hd : diff_codes old new = []). { apply join_nil; auto. fold o. destruct o; [reflexivity|discriminate]. }
     rewrite Hd in Hdiff. change (sgr spec_class (as_t old) (codes_of_texts [])) with (as_t old) in Hdiff.
-    eapply teq_disp_trans; [exact Ht_old|]. eapply teq_disp_trans; [exact Hdiff|]. now apply teq_teq_disp.
+    eapply (R_trans R HR); [exact Ht_old|]. apply (R_teq R HR). eapply teq_trans; [exact Hdiff|exact Hnew].
   - assert (Hdn : diff_codes old new <> []). { intros Hd. unfold o in En. rewrite Hd in En. discriminate. }
     assert (Ho : params_of o = Some (codes_of_texts (diff_codes old new))) by (apply params_of_join; auto).
     destruct (length o <? length (pt_codes p cur)); cbn [fst snd]; [|split; eauto].
     split; [|eauto]. unfold sgr_move. rewrite Ho.
-    eapply teq_disp_trans; [apply sgr_teq_disp; exact Ht_old|].
-    eapply teq_disp_trans; [exact Hdiff|]. now apply teq_teq_disp.
+    eapply (R_trans R HR); [apply (R_sgr R HR); exact Ht_old|].
+    apply (R_teq R HR). eapply teq_trans; [exact Hdiff|exact Hnew].
 Qed.
 
 Lemma rs_wrap_move t ac P : params_of (snd ac) = Some P ->
@@ -1290,10 +1285,11 @@ Proof.
   apply sgr_reset.
 Qed.
 
-Lemma Inv_point_opt s tb t0 rs : ssorted tb -> adds_parsable tb -> (rs = false -> t0 = tdefault) ->
+Lemma Inv_point_opt R (HR : rel_ok R) s tb t0 rs :
+  ssorted tb -> adds_parsable tb -> (rs = false -> t0 = tdefault) ->
   forall done k p rest st, tb = done ++ (k, p) :: rest -> k < length s ->
-  Inv teq_disp s tb t0 true done ((k, p) :: rest) st ->
-  Inv teq_disp s tb t0 true (done ++ [(k, p)]) rest (render_point s true rs st k p (step (trun [] done) p)).
+  Inv R s tb t0 true done ((k, p) :: rest) st ->
+  Inv R s tb t0 true (done ++ [(k, p)]) rest (render_point s true rs st k p (step (trun [] done) p)).
 Proof.
   intros Hsorted Hpars Ht0 done k p rest st E Hk HI.
   assert (Hact : set_parsable (trun [] done)).
@@ -1305,7 +1301,7 @@ Proof.
   { destruct HI as (? & ? & _ & _ & _ & _ & _ & _ & _ & _ & Hd). now apply Hd. }
   set (act := trun [] done) in *. set (cur := step act p).
   set (ac0 := opt_pick (r_dict st) (s2d (fun x => x) (map stxt cur) []) (pt_codes p cur)).
-  apply (Inv_step teq_disp teq_disp_rel_ok s tb t0 rs true Hsorted Ht0 done k p rest st
+  apply (Inv_step R HR s tb t0 rs true Hsorted Ht0 done k p rest st
                   (render_point s true rs st k p cur)
                   (if fst (rs_wrap k rs ac0) then [OSgr (snd (rs_wrap k rs ac0))] else []) E Hk HI);
     try (rewrite render_point_opt; cbv zeta; cbn [r_out r_last r_first r_exist r_dict]; reflexivity).
@@ -1318,17 +1314,74 @@ Proof.
       pose proof (ssorted_app_lt _ _ Hs' kp0 (0, p) (or_introl eq_refl) (or_introl eq_refl)) as Hlt.
       cbn [fst] in Hlt. lia. }
     assert (Hact0 : act = []) by (unfold act; now rewrite Hd0). 
-    assert (Ht00 : teq_disp tdefault (sty act)) by (rewrite Hact0; apply teq_disp_refl).
-    destruct (opt_pick_sound tdefault act p Hact Hpadd Ht00) as (Hsound & P & HP). fold cur in Hsound, HP.
+    assert (Ht00 : R tdefault (sty act)) by (rewrite Hact0; apply (R_refl R HR)).
+    destruct (opt_pick_sound R HR tdefault act p Hact Hpadd Ht00) as (Hsound & P & HP). fold cur in Hsound, HP.
     destruct (rs_wrap_move t1 _ P HP) as (Hfst & Hmove).
     rewrite Hfst. eexists. split; [reflexivity|]. rewrite Hmove.
     destruct (fst _); exact Hsound.
   - unfold rs_wrap. rewrite Ec. destruct Ht1 as [Ht1|[Hk0 Hr]].
     2:{ subst k. rewrite Hr in Ec. discriminate. }
-    destruct (opt_pick_sound t1 act p Hact Hpadd Ht1) as (Hsound & _). fold cur in Hsound.
+    destruct (opt_pick_sound R HR t1 act p Hact Hpadd Ht1) as (Hsound & _). fold cur in Hsound.
     destruct (fst _); eexists; (split; [reflexivity|exact Hsound]).
 Qed.
 
+(* generic in the relation: teq (exact, since F28) and teq_disp are both instances *)
+Lemma render_opt_display_R R (HR : rel_ok R) : forall s rs re t0,
+  ssorted (tbl s) -> adds_wf (tbl s) -> (rs = false -> t0 = tdefault) ->
+  exists disp tfin,
+    tok_run t0 (to_str_toks s true rs re) = (disp, tfin)
+    /\ map fst disp = base s
+    /\ (forall i, i < length (base s) -> exists st, nth_error (map snd disp) i = Some st /\
+          R st (style_of (map stxt (active_at (tbl s) i))))
+    /\ (re = true -> R tfin tdefault).
+Proof.
+  intros s rs re t0 Hs Hwf Ht0.
+  destruct (is_parsable_tbl (tbl s)) eqn:Ep.
+  - unfold to_str_toks. destruct (is_nil (tbl s) && negb rs) eqn:E0.
+    + apply andb_true_iff in E0 as [En Er]. apply negb_true_iff in Er.
+      destruct (tbl s) as [|kp tb'] eqn:Etb; [|discriminate].
+      rewrite (Ht0 Er).
+      destruct (display_early R HR (base s) tdefault) as (disp & tfin & H1 & H2 & H3 & H4).
+      exists disp, tfin. repeat split; auto.
+    + rewrite Ep. cbn [andb].
+      exact (display_generic R HR (base s) (tbl s) t0 rs true Hs Ht0
+               (Inv_point_opt R HR (base s) (tbl s) t0 rs Hs (is_parsable_tbl_spec _ Ep) Ht0) re).
+  - (* not parsable: the optimiser is switched off *)
+    assert (Heq : to_str_toks s true rs re = to_str_toks s false rs re).
+    { unfold to_str_toks. rewrite Ep. reflexivity. }
+    rewrite Heq.
+    destruct (render_unopt_display_strong s rs re t0 Hs Hwf Ht0) as (disp & tfin & H1 & H2 & H3 & H4).
+    exists disp, tfin. repeat split; auto.
+    + intros i Hi. destruct (H3 i Hi) as (st & Hn & Hst). exists st. split; auto. now apply (R_teq R HR).
+    + intros Hre. now apply (R_teq R HR), H4.
+Qed.
+
+(* the optimised renderer, exactly (teq): possible since F28 made 10 the clear code of FONT_TYPE *)
+Theorem render_opt_display_strong_exact : forall s rs re t0,
+  ssorted (tbl s) -> adds_wf (tbl s) -> (rs = false -> t0 = tdefault) ->
+  exists disp tfin,
+    tok_run t0 (to_str_toks s true rs re) = (disp, tfin)
+    /\ map fst disp = base s
+    /\ (forall i, i < length (base s) -> exists st, nth_error (map snd disp) i = Some st /\
+          teq st (style_of (map stxt (active_at (tbl s) i))))
+    /\ (re = true -> teq tfin tdefault).
+Proof. exact (render_opt_display_R teq teq_rel_ok). Qed.
+
+Theorem render_opt_display_exact : forall s rs re t0,
+  ssorted (tbl s) -> keys_le (tbl s) (length (base s)) -> no_esc (base s) = true ->
+  adds_wf (tbl s) -> strict_ok (tbl s) = true -> (rs = false -> t0 = tdefault) ->
+  let '(disp, tfin) := tok_run t0 (to_str_toks s true rs re) in
+     map fst disp = base s
+  /\ (forall i, i < length (base s) -> exists st, nth_error (map snd disp) i = Some st /\
+        teq st (style_of (map stxt (active_at (tbl s) i))))
+  /\ (re = true -> (exists c, In (OSgr c) (to_str_toks s true rs re)) -> teq tfin tdefault).
+Proof.
+  intros s rs re t0 Hs _ _ Hwf _ Ht0.
+  destruct (render_opt_display_strong_exact s rs re t0 Hs Hwf Ht0) as (disp & tfin & -> & H1 & H2 & H3).
+  repeat split; auto.
+Qed.
+
+(* the display-equivalence forms (weaker; kept under their original names) *)
 Theorem render_opt_display_strong : forall s rs re t0,
   ssorted (tbl s) -> adds_wf (tbl s) -> (rs = false -> t0 = tdefault) ->
   exists disp tfin,
@@ -1337,27 +1390,7 @@ Theorem render_opt_display_strong : forall s rs re t0,
     /\ (forall i, i < length (base s) -> exists st, nth_error (map snd disp) i = Some st /\
           teq_disp st (style_of (map stxt (active_at (tbl s) i))))
     /\ (re = true -> teq_disp tfin tdefault).
-Proof.
-  intros s rs re t0 Hs Hwf Ht0.
-  destruct (is_parsable_tbl (tbl s)) eqn:Ep.
-  - unfold to_str_toks. destruct (is_nil (tbl s) && negb rs) eqn:E0.
-    + apply andb_true_iff in E0 as [En Er]. apply negb_true_iff in Er.
-      destruct (tbl s) as [|kp tb'] eqn:Etb; [|discriminate].
-      rewrite (Ht0 Er).
-      destruct (display_early teq_disp teq_disp_rel_ok (base s) tdefault) as (disp & tfin & H1 & H2 & H3 & H4).
-      exists disp, tfin. repeat split; auto.
-    + rewrite Ep. cbn [andb].
-      exact (display_generic teq_disp teq_disp_rel_ok (base s) (tbl s) t0 rs true Hs Ht0
-               (Inv_point_opt (base s) (tbl s) t0 rs Hs (is_parsable_tbl_spec _ Ep) Ht0) re).
-  - (* not parsable: the optimiser is switched off *)
-    assert (Heq : to_str_toks s true rs re = to_str_toks s false rs re).
-    { unfold to_str_toks. rewrite Ep. reflexivity. }
-    rewrite Heq.
-    destruct (render_unopt_display_strong s rs re t0 Hs Hwf Ht0) as (disp & tfin & H1 & H2 & H3 & H4).
-    exists disp, tfin. repeat split; auto.
-    + intros i Hi. destruct (H3 i Hi) as (st & Hn & Hst). exists st. split; auto. now apply teq_teq_disp.
-    + intros Hre. now apply teq_teq_disp, H4.
-Qed.
+Proof. exact (render_opt_display_R teq_disp teq_disp_rel_ok). Qed.
 
 Theorem render_opt_display : forall s rs re t0,
   ssorted (tbl s) -> keys_le (tbl s) (length (base s)) -> no_esc (base s) = true ->
@@ -1382,17 +1415,17 @@ Proof.
   - apply IH; [simpl in Hl; lia|]. intros i x y Hx Hy. exact (H (S i) x y Hx Hy).
 Qed.
 
-Theorem render_opt_equiv : forall s rs re t0,
+Theorem render_opt_equiv_exact : forall s rs re t0,
   ssorted (tbl s) -> adds_wf (tbl s) -> (rs = false -> t0 = tdefault) ->
   exists d1 f1 d2 f2,
     tok_run t0 (to_str_toks s true rs re) = (d1, f1)
     /\ tok_run t0 (to_str_toks s false rs re) = (d2, f2)
     /\ map fst d1 = map fst d2
-    /\ Forall2 teq_disp (map snd d1) (map snd d2)
-    /\ (re = true -> teq_disp f1 f2).
+    /\ Forall2 teq (map snd d1) (map snd d2)
+    /\ (re = true -> teq f1 f2).
 Proof.
   intros s rs re t0 Hs Hwf Ht0.
-  destruct (render_opt_display_strong s rs re t0 Hs Hwf Ht0) as (d1 & f1 & A1 & A2 & A3 & A4).
+  destruct (render_opt_display_strong_exact s rs re t0 Hs Hwf Ht0) as (d1 & f1 & A1 & A2 & A3 & A4).
   destruct (render_unopt_display_strong s rs re t0 Hs Hwf Ht0) as (d2 & f2 & B1 & B2 & B3 & B4).
   exists d1, f1, d2, f2. split; [exact A1|]. split; [exact B1|]. split; [congruence|]. split.
   - assert (L1 : length d1 = length (base s)) by (rewrite <- A2; now rewrite map_length).
@@ -1403,8 +1436,24 @@ Proof.
     { rewrite <- L1, <- (map_length snd). apply nth_error_Some. congruence. }
     destruct (A3 i Hi) as (x & Hx & Hxs). destruct (B3 i Hi) as (y & Hy & Hys).
     rewrite Ha in Hx. rewrite Hb in Hy. inversion Hx; inversion Hy; subst.
-    eapply teq_disp_trans; [exact Hxs|]. apply teq_disp_sym. now apply teq_teq_disp.
-  - intros Hre. eapply teq_disp_trans; [now apply A4|]. apply teq_disp_sym, teq_teq_disp. now apply B4.
+    eapply teq_trans; [exact Hxs|]. now apply teq_sym.
+  - intros Hre. eapply teq_trans; [now apply A4|]. apply teq_sym. now apply B4.
+Qed.
+
+Theorem render_opt_equiv : forall s rs re t0,
+  ssorted (tbl s) -> adds_wf (tbl s) -> (rs = false -> t0 = tdefault) ->
+  exists d1 f1 d2 f2,
+    tok_run t0 (to_str_toks s true rs re) = (d1, f1)
+    /\ tok_run t0 (to_str_toks s false rs re) = (d2, f2)
+    /\ map fst d1 = map fst d2
+    /\ Forall2 teq_disp (map snd d1) (map snd d2)
+    /\ (re = true -> teq_disp f1 f2).
+Proof.
+  intros s rs re t0 Hs Hwf Ht0.
+  destruct (render_opt_equiv_exact s rs re t0 Hs Hwf Ht0) as (d1 & f1 & d2 & f2 & H1 & H2 & H3 & H4 & H5).
+  exists d1, f1, d2, f2. repeat split; auto.
+  - clear -H4. induction H4; constructor; auto. now apply teq_teq_disp.
+  - intros Hre. now apply teq_teq_disp, H5.
 Qed.
 
 
@@ -1461,6 +1510,37 @@ Proof.
       destruct (_ && re); repeat constructor.
 Qed.
 
+Theorem render_opt_display_bytes_exact : forall s rs re t0,
+  ssorted (tbl s) -> no_esc (base s) = true -> adds_wf (tbl s) -> (rs = false -> t0 = tdefault) ->
+  exists disp tfin,
+    term_run t0 (to_str s true rs re) = (disp, tfin)
+    /\ map fst disp = base s
+    /\ (forall i, i < length (base s) -> exists st, nth_error (map snd disp) i = Some st /\
+          teq st (style_of (map stxt (active_at (tbl s) i))))
+    /\ (re = true -> teq tfin tdefault).
+Proof.
+  intros s rs re t0 Hs He Hwf Ht0. unfold to_str. rewrite term_tok_bridge.
+  - now apply render_opt_display_strong_exact.
+  - now apply to_str_toks_ok.
+Qed.
+
+(* str(s) / format(s) : render = to_str with optimize, no reset_start, reset_end *)
+Corollary render_display_exact : forall s,
+  ssorted (tbl s) -> no_esc (base s) = true -> adds_wf (tbl s) ->
+  exists disp tfin,
+    term_run tdefault (render s) = (disp, tfin)
+    /\ map fst disp = base s
+    /\ (forall i, i < length (base s) -> exists st, nth_error (map snd disp) i = Some st /\
+          teq st (style_of (map stxt (active_at (tbl s) i))))
+    /\ teq tfin tdefault.
+Proof.
+  intros s Hs He Hwf.
+  destruct (render_opt_display_bytes_exact s false true tdefault Hs He Hwf (fun _ => eq_refl))
+    as (disp & tfin & H1 & H2 & H3 & H4).
+  exists disp, tfin. repeat split; auto.
+Qed.
+
+(* the display-equivalence forms, kept under their original names *)
 Theorem render_opt_display_bytes : forall s rs re t0,
   ssorted (tbl s) -> no_esc (base s) = true -> adds_wf (tbl s) -> (rs = false -> t0 = tdefault) ->
   exists disp tfin,
@@ -1518,7 +1598,7 @@ Proof.
       assert (Hp : set_parsable (padd p)).
       { intros x Hx. apply Hpars. unfold all_adds. cbn [flat_map snd]. apply in_or_app. now left. }
       assert (Hnil : set_parsable []) by (intros x []).
-      destruct (opt_pick_sound tdefault [] p Hnil Hp (teq_disp_refl _)) as (_ & P & HP).
+      destruct (opt_pick_sound teq teq_rel_ok tdefault [] p Hnil Hp (teq_refl _)) as (_ & P & HP).
       change (s2d (fun x : str => x) (map stxt []) []) with (@nil (effect * str)) in HP.
       set (ac := opt_pick [] _ _) in *.
       unfold rs_wrap. cbn [Nat.eqb andb]. destruct ac as [ap c]. cbn [fst snd] in *.
@@ -1569,15 +1649,18 @@ Example ex_o_rendered :
      = map (fun i => tstate_obs (style_of (map stxt (active_at (tbl ex_o) i)))) [0; 1; 2].
 Proof. repeat split; vm_compute; reflexivity. Qed.
 
-(* teq_disp (not teq) is what the optimiser achieves: clearing FONT_TYPE emits 10 *)
+(* since F28, 10 is the clear code of FONT_TYPE: the optimiser clears font 11 by emitting "10",
+   and the terminal state is then exactly the style of the remaining settings *)
 Definition ex_f : astr :=
   mkA [65; 66]%N [(0, mkP [mkS 1 [49; 49]%N; mkS 2 [49]%N] []); (1, mkP [] [mkS 1 [49; 49]%N])].
 Example ex_f_font :
   to_str_toks ex_f true false true = [OSgr [49; 49; 59; 49]%N; OText [65]%N; OSgr [49; 48]%N; OText [66]%N; OSgr []]
-  /\ (exists st, nth_error (map snd (fst (tok_run tdefault (to_str_toks ex_f true false true)))) 1 = Some st
-                 /\ st FONT_TYPE = Some [10%N]
-                 /\ style_of (map stxt (active_at (tbl ex_f) 1)) FONT_TYPE = None).
-Proof. split; [vm_compute; reflexivity|]. eexists. split; [reflexivity|]. split; reflexivity. Qed.
+  /\ (exists st0 st1,
+        map snd (fst (tok_run tdefault (to_str_toks ex_f true false true))) = [st0; st1]
+        /\ st0 FONT_TYPE = Some [11%N]
+        /\ st1 FONT_TYPE = None /\ st1 BOLDNESS = Some [1%N]
+        /\ style_of (map stxt (active_at (tbl ex_f) 1)) FONT_TYPE = None).
+Proof. split; [vm_compute; reflexivity|]. eexists. eexists. split; [reflexivity|]. repeat split; reflexivity. Qed.
 
 (* ==== FOOTER ==== *)
 Print Assumptions term_tok_bridge.
@@ -1595,3 +1678,8 @@ Print Assumptions to_str_toks_ok.
 Print Assumptions render_opt_display_bytes.
 Print Assumptions render_display.
 Print Assumptions render_starts_reset.
+Print Assumptions render_opt_display_strong_exact.
+Print Assumptions render_opt_display_exact.
+Print Assumptions render_opt_equiv_exact.
+Print Assumptions render_opt_display_bytes_exact.
+Print Assumptions render_display_exact.
